@@ -13,7 +13,7 @@ static void set_var(struct wvar *v, int opt)
         memset(v, 0, sizeof *v);
         v->type = VO[opt % 15].t; v->size = (uint8_t)VO[opt % 15].size;
         v->access = (cat_var_access)((opt / 15) % 3);
-        if (opt / 45) { v->has_name = 1; strcpy(v->name, "nm"); }
+        if (opt / 45) { v->has_name = 1; strcpy(v->name, (opt % 4 == 1) ? "" : "nm"); }       /* every fourth named variable has the empty name "" (not NULL) */
 }
 
 static int test_both_machines(int cap)
